@@ -3,34 +3,32 @@ PROP = dict(
     functions=[
         "ntp_proto::cookiestash::CookieStash::{store,get,gap,len,is_empty}",
         "ntp_proto::source::NtpSource<RecCtl>::handle_timer (NTS branch)",
-        "ntp_proto::packet::NtpPacket::{nts_poll_message,nts_poll_message_v5,serialize} (serialize: *_wire harnesses only)",
-        "ntp_proto::packet::extension_fields::{ExtensionFieldData::serialize,ExtensionField::serialize,encode_encrypted} (*_wire harnesses only)",
+        "ntp_proto::packet::NtpPacket::{nts_poll_message,nts_poll_message_v5}",
     ],
     bounds="stash: ONE store/get from every raw ring state (read<8, valid<=8, arbitrary 1-byte cookies, arbitrary stale free slots) checked through the full "
            "abstraction function (= inductive step for histories of any length), plus 4 (quick) / 10 (thorough) consecutive operations from every raw state; "
-           "poll (structure level): every stash fill 0..=8, cookie length 0..=32 with symbolic content, NTPv4 and NTPv5, any reach/tries/poll desire; "
-           "poll (wire level, real encoder): stash fill 6..=8 (at most two placeholders), same otherwise",
-    outside="cookie lengths above 32 in the poll harnesses (sizes: C14); wire-level check of requests with more than two placeholders (the structure handed to the "
-            "encoder is checked for all fills; the encoder is field-by-field, exercised with up to 6 fields here and by C24); arbitrary ring position in the poll "
-            "harnesses (position 0; arbitrary positions are covered by the stash harnesses through the abstraction function); cookie delivery on the response "
-            "path (C07: stored cookies = exactly the encrypted cookie fields, in order)",
+           "poll: every stash fill 0..=8, cookie length 0..=64 with symbolic content (handle_timer) / 0..=32 and every count 1..=8 (request builders), NTPv4 and NTPv5, "
+           "any reach/tries/poll desire, every random draw",
+    outside="the wire encoding of the request (NtpPacket::serialize) is not part of these queries: the property is decided on (a) what handle_timer hands to the request builder "
+            "and (b) the extension-field list the builder creates; handle_timer + builder + encoder in one query does not finish (see C14). Cookie lengths above 64 in the poll "
+            "harnesses (count logic for all lengths 0..=1024: c14_poll_timer_*). Arbitrary ring position in the poll harnesses (position 0; arbitrary positions are covered by "
+            "the stash harnesses through the abstraction function). Cookie delivery on the response path (C07: stored cookies = exactly the encrypted cookie fields, in order)",
     assumptions=[
-        "ideal AEAD model for the request authenticator: nonce 16 bytes, ciphertext = plaintext + 16 (AES-SIV sizes), no cryptography",
         "packet-size limit taken from the implementation's documented margin: floor((1024-300)/max(L,1)) cookies",
     ],
     stub_notes=[
-        "c13_poll_struct_*: NtpPacket::serialize replaced by a recorder (records field kinds, trust class, cookie bytes, key) - encoding >6 symbolic fields does not finish (unwind 10: >5 min, >4 GB)",
-        "c13_poll_wire_*: ExtensionField::write_zeros replaced by a single write of n zeros (equivalence with the real loop: c14_write_zeros_model)",
-        "thread_rng: ghost tape (unique identifier, origin timestamp, jitter are arbitrary); HashMap::insert on the snapshot publication map: no-op",
+        "c13_poll_timer_*: NtpPacket::nts_poll_message{,_v5} replaced by a recorder (records cookie bytes, count, poll exponent; returns the plain poll message of that version with a unique id from the ghost tape)",
+        "thread_rng: ghost tape (unique identifier, origin timestamp, jitter are arbitrary); HashMap::insert on the snapshot publication map: no-op; ExtensionField::write_zeros: single write (c14_write_zeros_model)",
     ],
     harnesses=[
         H(NH, "c13", "c13_stash_init", "a new stash is the empty queue", timeout=120),
         H(NH, "c13", "c13_stash_step", "one store/get from any raw state preserves 'ring window = FIFO of the newest 8' (get = oldest, each position at most once, len/gap agree)", timeout=300),
         H(NH, "c13", "c13_stash_seq4", "4 consecutive symbolic store/get operations from any raw state against a serial-number FIFO model", timeout=300),
         H(NH, "c13", "c13_stash_seq10", "10 consecutive symbolic store/get operations", tier="thorough", timeout=1800),
-        H(NH, "c13", "c13_poll_struct_v4", "NTPv4 NTS poll, all stash fills: cookie handed to the encoder = oldest, consumed from the stash, placeholders = min(missing, fit) - 1, all authenticated under c2s", timeout=300),
-        H(NH, "c13", "c13_poll_struct_v5", "same for NTPv5", timeout=300),
-        H(NH, "c13", "c13_poll_wire_v4", "NTPv4 NTS poll with the real encoder, stash fill 6..=8: same claims on the datagram bytes + exact datagram size", timeout=300),
-        H(NH, "c13", "c13_poll_wire_v5", "same for NTPv5", timeout=300),
+        H(NH, "c13", "c13_poll_timer_v4", "NTPv4 NTS handle_timer, all stash fills: cookie handed to the request builder = oldest (every byte), consumed from the stash, rest keeps order, "
+          "count = min(missing, fit), pending uid = the request's", timeout=300),
+        H(NH, "c13", "c13_poll_timer_v5", "same for NTPv5", timeout=300),
+        H(NH, "c13", "c13_poll_message_v4", "real nts_poll_message: fields = unique id (remembered), the cookie (every byte), count-1 placeholders of the cookie's length, all authenticated", timeout=300),
+        H(NH, "c13", "c13_poll_message_v5", "real nts_poll_message_v5: same + draft identification", timeout=300),
     ],
 )
